@@ -467,7 +467,9 @@ def gen_id_reuse_after_end(seed, opts=None):
     script = []
     if role == 'server':
         script.append({'at': 0.0, 'frame': {'t': 'SETUP', 'keepalive_ms': 10_000_000, 'lifetime_ms': 20_000_000}})
-    first = {'t': t_type[first_kind], 'sid': sid, 'n': 0x7FFFFFFF, 'data': app.content(0, 'q', 0, 'D', 20).hex()}
+    # (initial request-n: the maximum, or - from a careless peer - a value with the reserved top bit set)
+    first = {'t': t_type[first_kind], 'sid': sid, 'n': _pick(rng, [(3, 0x7FFFFFFF), (1, 0x80000000), (1, 0xFFFFFFFF)]),
+             'data': app.content(0, 'q', 0, 'D', 20).hex()}
     if first_kind == 'channel':
         first['complete'] = True  # the peer's own direction is closed from the start
     script.append({'at': 0.005, 'frame': first})
